@@ -11,6 +11,8 @@ import Hive.Proofs.EventsMaxN
 import Hive.Spec.Events
 import Hive.Gen.C15_Skel
 import Hive.Gen.C15_Twins
+import Hive.Gen.C15_Bodies
+import Hive.Proofs.EventsOMap
 /-!
 # C15 — events, promises and notifiers deliver exactly the right calls
 
@@ -847,6 +849,82 @@ end iter
 
 `Hive/Gen/C15_Skel.lean` is regenerated from the working tree on every run; a change of the lock /
 atomic / channel / select structure of these functions breaks these obligations. -/
+section orderedmap
+open Hive.EventsOMap
+
+/-- **C15, the hook registry's data structure (all histories of `Set` / `Delete` / `Clear` on the
+pointer-level model of `orderedmap.OrderedMap`).**  After any history there is a list `as` of pairwise
+different element addresses such that `head` / `tail` are its ends, every element's `next` / `prev` is
+its successor / predecessor in `as`, the dictionary maps exactly the keys of these elements to them and
+`size` is its length (`WF`).  This is the list a quiescent `ForEach` walks (attachment order of the hooks),
+and the structure `Hive/Model/EventsIter.lean` abstracts (`live`). -/
+theorem C15_orderedmap_wellformed (ops : List Op) : ∃ as, WF (run ops) as := WF_run ops
+
+/-- **C15, frozen pointers (all histories, any next operation).**  (1) An operation never writes to an
+allocated element that is not in the list: the `next` / `prev` / `key` of every removed element stay what
+they were — an iterator standing on an unhooked hook's element continues from the pointer the element had
+when it was removed.  (2) At the moment of its removal the element's `next` / `prev` are its neighbours in
+the list of that moment and `Delete` leaves them in place.  Together with `WF.next` these are exactly the
+three modelling assumptions of the abstract registry (`EventsIter.next`, `EventsIter.delete`). -/
+theorem C15_orderedmap_frozen_pointers (ops : List Op) :
+    ∃ as, WF (run ops) as ∧
+      (∀ (op : Op) (b : Nat), b ∉ as → b < (run ops).heap.length →
+        nextOf (apply (run ops) op) b = nextOf (run ops) b ∧ prevOf (apply (run ops) op) b = prevOf (run ops) b ∧
+        keyOf (apply (run ops) op) b = keyOf (run ops) b) ∧
+      (∀ k a, lookup (run ops) k = some a →
+        nextOf (delete (run ops) k).1 a = succ as a ∧ prevOf (delete (run ops) k).1 a = pred as a) := by
+  obtain ⟨as, h⟩ := WF_run ops
+  exact ⟨as, h, fun op b hb hlt => frozen_apply h op hb hlt, fun k a hl => removed_keeps h hl⟩
+
+/-- **C15, queries (all histories).**  `Has(k)` holds iff an element of the list carries key `k` (and
+then exactly one does, the one the dictionary returns); `Size` is the length of the list; a `Delete`
+answers whether the key was present; keys of list elements are pairwise different. -/
+theorem C15_orderedmap_queries (ops : List Op) :
+    ∃ as, WF (run ops) as ∧ (run ops).size = as.length ∧
+      (∀ k, has (run ops) k = true ↔ ∃ a ∈ as, keyOf (run ops) a = some k) ∧
+      (∀ a ∈ as, ∀ b ∈ as, keyOf (run ops) a = keyOf (run ops) b → a = b) ∧
+      (∀ k, (delete (run ops) k).2 = has (run ops) k) := by
+  obtain ⟨as, h⟩ := WF_run ops
+  refine ⟨as, h, h.size, ?_, ?_, ?_⟩
+  · intro k
+    unfold has
+    constructor
+    · intro hk
+      cases hl : lookup (run ops) k with
+      | none => simp [hl] at hk
+      | some a => exact ⟨a, (h.dsound k a hl).1, (h.dsound k a hl).2⟩
+    · rintro ⟨a, ha, hka⟩
+      obtain ⟨k', hk1, hk2⟩ := h.dcompl a ha
+      rw [hka] at hk1
+      cases hk1
+      simp [hk2]
+  · intro a ha b hb hab
+    obtain ⟨k1, hk1, hl1⟩ := h.dcompl a ha
+    obtain ⟨k2, hk2, hl2⟩ := h.dcompl b hb
+    rw [hk1, hk2] at hab
+    cases hab
+    rw [hl1] at hl2
+    exact Option.some.inj hl2
+  · intro k
+    unfold has
+    cases hl : lookup (run ops) k with
+    | none => simp [delete_absent hl]
+    | some a =>
+      obtain ⟨e, he⟩ := getElem_of_bound (h.bound a (h.dsound k a hl).1)
+      simp [delete_eq hl he]
+
+/-- Non-vacuity: three entries, the middle one is deleted — the list is `[0, 2]`, element `1` is
+allocated but outside the list (the hypotheses of the frozen-pointer clause), and it still points to
+element `2`. -/
+example : WF (run [.set 5 50, .set 6 60, .set 7 70, .delete 6]) [0, 2] ∧ (1 ∉ [0, 2]) ∧
+    1 < (run [.set 5 50, .set 6 60, .set 7 70, .delete 6]).heap.length ∧
+    nextOf (run [.set 5 50, .set 6 60, .set 7 70, .delete 6]) 1 = some 2 ∧
+    nextOf (run [.set 5 50, .set 6 60, .set 7 70, .delete 6]) 0 = some 2 :=
+  ⟨WF_apply (WF_apply (WF_apply (WF_apply WF_empty (.set 5 50)) (.set 6 60)) (.set 7 70)) (.delete 6),
+    by decide, by decide, by decide, by decide⟩
+
+end orderedmap
+
 section skeletons
 open Hive.Gen.C15Skel
 
@@ -990,6 +1068,195 @@ theorem C15_skeleton_twins_uniform :
     Hive.Gen.C15Twins.twin_LinkTo_1 =
   ["{",
     "e.linkTo(target, e.Trigger)",
+    "}"] := by
+  decide
+
+/-- `Clear` swaps in a fresh dictionary and resets `head` / `tail` under the write lock; the elements are not touched (`EventsOMap.clear`). -/
+theorem C15_skeleton_OrderedMap_Clear : skel_OrderedMap_Clear =
+    ["if{", "return", "}if", "lock o.mutex", "defer unlock o.mutex"] := by decide
+
+/-- `ForEachReverse`: as `ForEach`, from `tail` along `prev` (`EventsOMap.stepLine`, `rev`). -/
+theorem C15_skeleton_OrderedMap_ForEachReverse : skel_OrderedMap_ForEachReverse =
+    ["if{", "return", "}if", "rlock o.mutex", "runlock o.mutex", "for{",
+      "if{", "return", "}if", "rlock o.mutex", "runlock o.mutex", "}for",
+      "return"] := by decide
+
+/-- **The source text the pointer-level model was written against.**  `Hive/Model/EventsOMap.lean`
+mirrors these assignments one by one (`set`, `delete`, `clear`, the pointer reads of the iteration in
+`stepLine`); the text is regenerated from the working tree on every run (`harness/c15/bodies`), so any
+edit of these bodies or of the two struct types has to be carried over to the model. -/
+theorem C15_skeleton_orderedmap_bodies :
+    Hive.Gen.C15Bodies.body_type_OrderedMap =
+  ["struct {",
+    "head *Element[K, V]",
+    "tail *Element[K, V]",
+    "dictionary *shrinkingmap.ShrinkingMap[K, *Element[K, V]]",
+    "size int",
+    "mutex sync.RWMutex",
+    "}"] ∧
+    Hive.Gen.C15Bodies.body_OrderedMap_Set =
+  ["{",
+    "o.mutex.Lock()",
+    "defer o.mutex.Unlock()",
+    "if oldValue, oldValueExists := o.dictionary.Get(key); oldValueExists {",
+    "previousValue = oldValue.value",
+    "oldValue.value = newValue",
+    "return previousValue, true",
+    "}",
+    "newElement := new(Element[K, V])",
+    "newElement.key = key",
+    "newElement.value = newValue",
+    "if o.head == nil {",
+    "o.head = newElement",
+    "} else {",
+    "o.tail.next = newElement",
+    "newElement.prev = o.tail",
+    "}",
+    "o.tail = newElement",
+    "o.size++",
+    "o.dictionary.Set(key, newElement)",
+    "return previousValue, false",
+    "}"] ∧
+    Hive.Gen.C15Bodies.body_OrderedMap_Delete =
+  ["{",
+    "if _, valueExists := o.Get(key); !valueExists {",
+    "return false",
+    "}",
+    "o.mutex.Lock()",
+    "defer o.mutex.Unlock()",
+    "value, valueExists := o.dictionary.Get(key)",
+    "if !valueExists {",
+    "return false",
+    "}",
+    "o.dictionary.Delete(key)",
+    "o.size--",
+    "if value.prev != nil {",
+    "value.prev.next = value.next",
+    "} else {",
+    "o.head = value.next",
+    "}",
+    "if value.next != nil {",
+    "value.next.prev = value.prev",
+    "} else {",
+    "o.tail = value.prev",
+    "}",
+    "return true",
+    "}"] ∧
+    Hive.Gen.C15Bodies.body_OrderedMap_Clear =
+  ["{",
+    "if o == nil {",
+    "return",
+    "}",
+    "o.mutex.Lock()",
+    "defer o.mutex.Unlock()",
+    "o.head = nil",
+    "o.tail = nil",
+    "o.size = 0",
+    "o.dictionary = shrinkingmap.New[K, *Element[K, V]]()",
+    "}"] ∧
+    Hive.Gen.C15Bodies.body_OrderedMap_ForEach =
+  ["{",
+    "if o == nil {",
+    "return true",
+    "}",
+    "o.mutex.RLock()",
+    "currentEntry := o.head",
+    "o.mutex.RUnlock()",
+    "for currentEntry != nil {",
+    "if !consumer(currentEntry.key, currentEntry.value) {",
+    "return false",
+    "}",
+    "o.mutex.RLock()",
+    "currentEntry = currentEntry.next",
+    "o.mutex.RUnlock()",
+    "}",
+    "return true",
+    "}"] ∧
+    Hive.Gen.C15Bodies.body_OrderedMap_ForEachReverse =
+  ["{",
+    "if o == nil {",
+    "return true",
+    "}",
+    "o.mutex.RLock()",
+    "currentEntry := o.tail",
+    "o.mutex.RUnlock()",
+    "for currentEntry != nil {",
+    "if !consumer(currentEntry.key, currentEntry.value) {",
+    "return false",
+    "}",
+    "o.mutex.RLock()",
+    "currentEntry = currentEntry.prev",
+    "o.mutex.RUnlock()",
+    "}",
+    "return true",
+    "}"] ∧
+    Hive.Gen.C15Bodies.body_OrderedMap_Head =
+  ["{",
+    "o.mutex.RLock()",
+    "defer o.mutex.RUnlock()",
+    "if exists = o.head != nil; !exists {",
+    "return",
+    "}",
+    "key = o.head.key",
+    "value = o.head.value",
+    "return",
+    "}"] ∧
+    Hive.Gen.C15Bodies.body_OrderedMap_Tail =
+  ["{",
+    "o.mutex.RLock()",
+    "defer o.mutex.RUnlock()",
+    "if exists = o.tail != nil; !exists {",
+    "return",
+    "}",
+    "key = o.tail.key",
+    "value = o.tail.value",
+    "return",
+    "}"] ∧
+    Hive.Gen.C15Bodies.body_OrderedMap_Get =
+  ["{",
+    "o.mutex.RLock()",
+    "defer o.mutex.RUnlock()",
+    "orderedMapElement, orderedMapElementExists := o.dictionary.Get(key)",
+    "if !orderedMapElementExists {",
+    "var result V",
+    "return result, false",
+    "}",
+    "return orderedMapElement.value, true",
+    "}"] ∧
+    Hive.Gen.C15Bodies.body_OrderedMap_Has =
+  ["{",
+    "o.mutex.RLock()",
+    "defer o.mutex.RUnlock()",
+    "return o.dictionary.Has(key)",
+    "}"] ∧
+    Hive.Gen.C15Bodies.body_OrderedMap_Size =
+  ["{",
+    "if o == nil {",
+    "return 0",
+    "}",
+    "o.mutex.RLock()",
+    "defer o.mutex.RUnlock()",
+    "return o.size",
+    "}"] ∧
+    Hive.Gen.C15Bodies.body_OrderedMap_Clone =
+  ["{",
+    "if o == nil {",
+    "return nil",
+    "}",
+    "cloned := New[K, V]()",
+    "o.mutex.RLock()",
+    "defer o.mutex.RUnlock()",
+    "for currentEntry := o.head; currentEntry != nil; currentEntry = currentEntry.next {",
+    "cloned.Set(currentEntry.key, currentEntry.value)",
+    "}",
+    "return cloned",
+    "}"] ∧
+    Hive.Gen.C15Bodies.body_type_Element =
+  ["struct {",
+    "key K",
+    "value V",
+    "prev *Element[K, V]",
+    "next *Element[K, V]",
     "}"] := by
   decide
 
